@@ -61,6 +61,8 @@ ballots_pos = z3.Function('ballots_pos', I, I)
 cands_elem = z3.Function('cands_elem', I, I)
 cands_pos = z3.Function('cands_pos', I, I)
 msg_subject = z3.Function('msg_subject', I, I)
+whole_of = z3.Function('whole_of', I, I)          # stored units of V(k) -> k
+whole_of_r = z3.Function('whole_of_r', R, I)
 N_BALLOT_OBJS = z3.Int('n_ballot_objects')
 
 GHOST_INT = ('nH', 'nE', 'nD', 'nW', 'nP', 'nlog')
@@ -113,6 +115,24 @@ def election_facts(ex, st):
     stt = C.heap_array(st, CAND, 'state', 'str')
     st.facts.append((CAND, lambda t: z3.Implies(inC(t), z3.Or(*[z3.Select(C.heap_array(st, CAND, 'state', 'str'), t) == str_id(x)
                                                                  for x in ('hopeful', 'elected', 'defeated', 'withdrawn')]))))
+
+
+def ballot_inv(ex, st):
+    """data-structure invariant of ballots on the current heap: 0 <= index <= len(ranking), rankings non-empty.
+    Ballot.index is written only by Ballot.advance / Ballot.restart (SCAN single-writer); advance requires
+    index < len (PRE at every call site), restart sets 0: so the invariant survives every havoc of the field."""
+    C = ex.C
+    idx = C.heap_array(st, BALLOT, 'index', 'int')
+    rk = C.heap_array(st, BALLOT, 'ranking', 'seq:int')
+    b = z3.Int('b!inv')
+    return z3.ForAll([b], z3.Implies(isBallot(b), z3.And(z3.Select(idx, b) >= 0,
+                                                           z3.Select(idx, b) <= seqlen(z3.Select(rk, b)),
+                                                           seqlen(z3.Select(rk, b)) >= 1)))
+
+
+def after_havoc(ex, st, keys):
+    if (BALLOT, 'index') in keys:
+        st.assume(ballot_inv(ex, st))
 
 
 def state_is(C, st, t, name):
@@ -326,6 +346,7 @@ def install_election(ex):
             return ex.ok(SInt(seqlen(v.t)), st)
         return None
 
+    ex.hooks['after_havoc'] = lambda st, keys: after_havoc(ex, st, keys)
     ex.hooks['pre_call'] = pre_call
     ex.hooks['model_field'] = model_field
     ex.hooks['iter_abs'] = iter_abs
@@ -337,6 +358,16 @@ def install_election(ex):
 _install0 = install
 
 
+PURE_CLOSURES = ('hasQuota', 'hasSurplus', 'countComplete')
+
+
 def install(ex):       # noqa
     _install0(ex)
     install_election(ex)
+    # tiny pure closures are executed in line where they are called (their contracts are proved
+    # separately); this keeps comprehension filters free of fresh result symbols
+    for f in ex.repo.all_functions():
+        if f.parent is not None and f.name in PURE_CLOSURES:
+            ex.inline_only.add(f.qualname)
+    for q in ('exhausted', 'topRank', 'topCand'):
+        ex.inline_only.add('droop.election.Election.Ballot.' + q)
